@@ -61,28 +61,39 @@ Proof. exact C18_rest_prose_lemma. Qed.
 Print Assumptions C18_rest_prose.
 
 (* a whole ReST entry (its :param / :type or :returns: / :rtype: lines): wrapping changes only whitespace,
-   and the entry is mutated the same way with word_wrap on and off *)
+   and the caller's param is not touched, with word_wrap on or off *)
 Theorem C18_rest_entry : forall w name p ed et edd ls p' tw p1,
     rest_raw_lines name p ed et edd = Ok (ls, p') ->
     Forall (fun l => no_exotic_space l = true) ls ->
     emit_param_str w name p Rest ed et true edd = Ok (tw, p1) ->
-    p1 = p'
+    p1 = p
     /\ words tw = concat (map words ls)
     /\ words (rejoin tw) = concat (map words ls)
-    /\ exists tu, emit_param_str w name p Rest ed et false edd = Ok (tu, p')
+    /\ exists tu, emit_param_str w name p Rest ed et false edd = Ok (tu, p)
                   /\ words tu = concat (map words ls).
 Proof. exact C18_rest_entry_lemma. Qed.
 Print Assumptions C18_rest_entry.
 
 (* the whole docstring, three styles: inside the fragment of fill, emit.docstring with word_wrap on succeeds
-   only if it does with word_wrap off, mutates the IR identically, and the two texts have the same words in the
-   same order - wrapping changes layout only; no word is lost, merged, split or moved *)
+   only if it does with word_wrap off, neither writes into the caller's IR, and the two texts have the same
+   words in the same order - wrapping changes layout only; no word is lost, merged, split or moved *)
 Theorem C18_docstring_words : forall w st edd i tw i1,
     ir_plain st edd i = true ->
     emit_docstring w st true edd i = Ok (tw, i1) ->
-    exists tu, emit_docstring w st false edd i = Ok (tu, i1) /\ words tw = words tu.
-Proof. exact C18_docstring_words_lemma. Qed.
+    i1 = i /\ exists tu, emit_docstring w st false edd i = Ok (tu, i) /\ words tw = words tu.
+Proof. exact C18_docstring_words_pure_lemma. Qed.
 Print Assumptions C18_docstring_words.
+
+(* the three docstring-level functions leave their argument as it was (they work on copies of the param dicts) *)
+Theorem C18_emit_param_str_pure : forall w name p st ed et ww edd t p',
+    emit_param_str w name p st ed et ww edd = Ok (t, p') -> p' = p.
+Proof. exact emit_param_str_pure. Qed.
+Print Assumptions C18_emit_param_str_pure.
+
+Theorem C18_emit_docstring_pure : forall w st ww edd i t i',
+    emit_docstring w st ww edd i = Ok (t, i') -> i' = i.
+Proof. exact emit_docstring_pure. Qed.
+Print Assumptions C18_emit_docstring_pure.
 
 (* to_docstring works on copies of the param dicts: the caller's IR is left as it was *)
 Theorem C18_to_docstring_ir : forall w i edd st il et est ww t i',
@@ -90,8 +101,7 @@ Theorem C18_to_docstring_ir : forall w i edd st il et est ww t i',
 Proof. exact to_docstring_ir. Qed.
 Print Assumptions C18_to_docstring_ir.
 
-(* where nothing needs wrapping the wrapped and the unwrapped docstring are the same bytes (and the same
-   post-call IR), for the three styles and every width: every parser reads the same interface *)
+(* where nothing needs wrapping the wrapped and the unwrapped docstring are the same bytes, for the three styles and every width: every parser reads the same interface *)
 Theorem C18_nowrap : forall w st edd i,
     guard_nowrap w st edd i = true ->
     emit_docstring w st true edd i = emit_docstring w st false edd i.
